@@ -350,8 +350,10 @@ func (h *c10Hist) opSelfStore(p c10Place, ix c10Idx) *c10Op {
 }
 
 // opMapPlus: `m + rhs`, `m += rhs`, `m = m + rhs`, `dst = m + rhs` with a map as the left
-// operand and a list or map as the right one: Go has no append on maps - an ill-typed
-// operand, an error that changes nothing (no name is rebound).
+// operand and anything as the right one (a list, a map, a number, a string, a boolean, nil):
+// Go has no append on maps - an ill-typed operand, an error that changes nothing (no name is
+// rebound). What `x + m` with a map on the RIGHT of a scalar yields is the arithmetic tower's
+// business (C05) and not generated.
 func (h *c10Hist) opMapPlus(form, dst string, p c10Place, rhs c10Val) *c10Op {
 	var src string
 	switch form {
@@ -368,17 +370,14 @@ func (h *c10Hist) opMapPlus(form, dst string, p c10Place, rhs c10Val) *c10Op {
 		src = p.src() + " + " + rhs.src
 	}
 	op, cont := h.newOp("append", p, src)
-	if !cont.IsValid() || cont.Kind() != reflect.Map || rhs.v == nil || p.sf != "" {
+	if !cont.IsValid() || cont.Kind() != reflect.Map || p.sf != "" {
 		return nil
 	}
-	switch reflect.TypeOf(rhs.v).Kind() {
-	case reflect.Slice:
-	case reflect.Map:
-		if c10PendingFix_MapPlusMap {
-			return nil
-		}
-	default:
-		return nil // map + number / string: the arithmetic tower's business (C05)
+	if rhs.v != nil && reflect.TypeOf(rhs.v).Kind() == reflect.Map && c10PendingFix_MapPlusMap {
+		return nil
+	}
+	if rhs.v != nil && reflect.TypeOf(rhs.v).Kind() == reflect.Struct {
+		return nil
 	}
 	op.wantErr, op.why = true, "append-on-map"
 	return op
@@ -474,6 +473,9 @@ func (g *c10Gen) r6Op() *c10Op {
 	case reflect.Map:
 		form := []string{"+=", "=+", "d=", "expr"}[g.rn(4)]
 		rhs := g.containerVal()
+		if g.rn(3) == 0 {
+			rhs = g.scalar() // a number, a string, a boolean, nil: no append on a map either
+		}
 		return h.opMapPlus(form, g.dest(cont.Type()), p, rhs)
 	}
 	return nil
